@@ -370,7 +370,17 @@ def agree_ref(ctx, fi, ref_src, title, what=('return', 'heap', 'substores'), rul
     own = None           # events of helpers the function was inlined through belong to its behaviour
     txt = lambda e: e.text()[:90]
     if 'return' in what:
-        ctx.formula(rule, f'{title}: returned value == reference definition', fi, r.ret, rr.ret, node=fi.node,
+        ca_, cb_ = r.ret, rr.ret
+        if T.compare(ca_, cb_)[0] != T.EQUAL and r.returns and rr.returns:
+            # the joined return value is only meaningful where the function returns at all (on a path that raises it is
+            # whatever the last `return` expression would have been): compare "returns v under condition c" on both sides
+            def reached(res):
+                c_ = T.mk_or([c for c, _ in res.returns] + ([res.live] if res.live.key != T.FALSE.key else []))
+                return T.mk_ite(c_, res.ret, T.lift('<does not return>')) if c_.key != T.TRUE.key else res.ret
+            wa_, wb_ = reached(r), reached(rr)
+            if T.compare(wa_, wb_)[0] == T.EQUAL:
+                ca_, cb_ = wa_, wb_
+        ctx.formula(rule, f'{title}: returned value == reference definition', fi, ca_, cb_, node=fi.node,
                     construct=f'return {fi.name}')
     if 'heap' in what:
         keys = sorted({k for k in list(I.heap) + list(IR.heap) if k[0] == sym('self').key})
@@ -1309,3 +1319,87 @@ def delay_within_max(t):
         return False
     la = ea.args[0].single_atom()
     return la is not None and la.kind == 'attr' and la.args[1] == 'antennas' and la.args[0].key == owner.key
+
+
+# --------------------------------------------------------------------------- MEMO: memoised readers of external state
+_MEMO_DECORATORS = {'functools.lru_cache', 'functools.cache'}
+_EXTERNAL_READS = {'open', 'io.open', 'blimpy.Waterfall', 'blimpy.waterfall.Waterfall', 'h5py.File', 'numpy.fromfile', 'numpy.load',
+                   'numpy.memmap', 'numpy.loadtxt', 'numpy.genfromtxt', 'os.stat', 'os.path.getsize', 'os.path.getmtime',
+                   'os.path.exists', 'os.path.isfile', 'os.listdir', 'os.scandir', 'glob.glob', 'glob.iglob', 'pickle.load'}
+_EXTERNAL_READ_METHODS = {'read_bytes', 'read_text', 'stat', 'exists', 'is_file', 'iterdir', 'glob'}
+
+
+def memoised_external_readers(ctx):
+    """MEMO: a function memoised on its arguments (functools.lru_cache / functools.cache, however imported) must not read
+    state outside its arguments -- a file at a path, a directory listing: the memo is keyed by the PATH, so a file rewritten
+    between two calls is answered from the first read.  Returns [(FuncInfo, decorator text, what it reads, node)] over the
+    whole package (the memoised function itself and the package functions it calls, transitively)."""
+    from vstatic.argbind import resolve_callee
+    prog = ctx.prog
+
+    def decorator_name(fi, d):
+        f = d.func if isinstance(d, ast.Call) else d
+        try:
+            dotted = ast.unparse(f)
+        except Exception:
+            return None
+        r = prog.resolve_dotted(fi.module, dotted)
+        if isinstance(r, tuple) and r[0] == 'ext':
+            return r[1]
+        return None
+
+    def ext_name(fi, f):
+        try:
+            dotted = ast.unparse(f)
+        except Exception:
+            return None
+        if dotted in ('open',):
+            return 'open'
+        r = prog.resolve_dotted(fi.module, dotted)
+        if isinstance(r, tuple) and r[0] == 'ext':
+            return r[1]
+        return None
+
+    def reads(fi, seen):
+        if fi.qual in seen or len(seen) > 60:
+            return None
+        seen.add(fi.qual)
+        body = fi.node.body if isinstance(fi.node.body, list) else [fi.node.body]
+        for b in body:
+            for n in ast.walk(b):
+                if not isinstance(n, ast.Call):
+                    continue
+                en = ext_name(fi, n.func)
+                if en in _EXTERNAL_READS:
+                    return (en, n)
+                if isinstance(n.func, ast.Attribute) and n.func.attr in _EXTERNAL_READ_METHODS and en is None:
+                    return ('.' + n.func.attr + '()', n)
+                rc = resolve_callee(prog, fi, n)
+                if rc is not None:
+                    sub = reads(rc[0], seen)
+                    if sub is not None:
+                        return (f'{rc[0].short} -> {sub[0]}', n)
+        return None
+
+    out, n_memo = [], 0
+    for fi in prog.functions.values():
+        for d in getattr(fi.node, 'decorator_list', []):
+            dn = decorator_name(fi, d)
+            if dn in _MEMO_DECORATORS:
+                n_memo += 1
+                rd = reads(fi, set())
+                if rd is not None:
+                    out.append((fi, dn, rd[0], d))
+    return out, n_memo
+
+
+def memo_obligation(ctx, anchor_fi, what):
+    """one MEMO obligation per property that depends on files being re-read: holds iff no memoised function of the package
+    reads external state (reported at the memoised function)"""
+    bad, n_memo = memoised_external_readers(ctx)
+    ctx.ob('MEMO', f'{what}: no function memoised on its arguments (functools.lru_cache / cache) reads a file or a directory -- '
+           'the memo is keyed by the path, a file rewritten between two calls would be answered from the first read',
+           bad[0][0] if bad else anchor_fi, not bad,
+           {'memoised_functions_in_package': n_memo,
+            'memoised_readers': [f'{fi.short} (@{dn}) reads {rd}' for fi, dn, rd, _ in bad]},
+           node=(bad[0][3] if bad else anchor_fi.node), construct='memoised file reader')
